@@ -146,6 +146,15 @@ def canon_fields(f):
     return json.dumps(f, sort_keys=True)
 
 
+def permuted(fields, seed):
+    """The same keyword arguments in another order (the order travels through the pipe: the node calls **fields as received)."""
+    import random as _random
+
+    keys = sorted(fields)
+    _random.Random(seed).shuffle(keys)
+    return {k: fields[k] for k in keys}
+
+
 class Runner:
     def __init__(self, stats=None):
         self.stats = stats if stats is not None else {}
@@ -248,6 +257,7 @@ class Runner:
                     if slot in model[ni]:
                         panel = texts[model[ni][slot]]["panel"]
                         fields = op["f"] if "f" in op else panel[op["p"] % len(panel)]
+                        fields = permuted(fields, step * 7919 + ni)       # same values, keyword order varies from call to call
                         res = nodes[ni].request({"op": "call", "slot": slot, "fields": fields})
                         observe(ni, slot, fields, res, step)
                 elif k == "burst":
@@ -308,9 +318,10 @@ class Runner:
                                     break
                             if extra not in holders:
                                 holders.append(extra)
-                        for slot in holders:
-                            res = nodes[ni].request({"op": "call", "slot": slot, "fields": fields})
-                            observe(ni, slot, fields, res, step)
+                        for hi, slot in enumerate(holders):
+                            pf = permuted(fields, step * 7919 + ni * 31 + hi)
+                            res = nodes[ni].request({"op": "call", "slot": slot, "fields": pf})
+                            observe(ni, slot, pf, res, step)
                 else:
                     raise HarnessError("unknown op " + k)
         except Violation as v:
